@@ -6,7 +6,7 @@ import loadrun as L
 PROPERTY = 'C08'
 LEAN_MODULES = ['YatimlModel.Props.C08']
 THEOREMS = ['YatimlModel.C08.' + t for t in ['C08_process_no_other', 'C08_construct_no_other',
-                                              'C08_load_no_other']]
+                                              'C08_load_no_other']] + ['YatimlModel.recognize_noHook']
 RULE = ('generated class models (hierarchies, enums, string-likes, hooks incl. raising savorizers, '
         'raising constructors) x documents derived from the type, single/double mutations (tags, '
         'wrong kinds, duplicate / non-scalar / merge keys), token soup and mutated valid texts; the '
